@@ -477,7 +477,7 @@ def generate():
         cloexec = ('#[cfg(target_os="linux")]constSOCK_FLAGS:c_int=libc::SOCK_CLOEXEC;' in flat
                    and '#[cfg(target_os="linux")]constRECVMSG_FLAGS:c_int=libc::MSG_CMSG_CLOEXEC;' in flat
                    and 'socketpair(libc::AF_UNIX,SOCK_SEQPACKET|SOCK_FLAGS,0,&mutresults[0],)' in flat
-                   and len(re.findall(r'recvmsg\(fd,&mutself\.msghdr,RECVMSG_FLAGS\)', flat)) == len(re.findall(r'[^_a-z]recvmsg\(', flat)) >= 1
+                   and len(re.findall(r'recvmsg\(fd,&mutself\.msghdr,RECVMSG_FLAGS(?:\|libc::MSG_DONTWAIT)?\)', flat)) == len(re.findall(r'[^_a-z]recvmsg\(', flat)) >= 1
                    and 'libc::fcntl(self.store.fd(),libc::F_DUPFD_CLOEXEC,0)' in flat and 'libc::dup(' not in flat and 'F_DUPFD,' not in flat
                    and 'memfd_create(name.as_ptr(),libc::MFD_CLOEXECasusize)' in flat
                    and len(re.findall(r'libc::socket\(libc::AF_UNIX,SOCK_SEQPACKET\|SOCK_FLAGS,0\)', flat)) == len(re.findall(r'libc::socket\(', flat)) >= 1
@@ -534,6 +534,13 @@ def generate():
         iclr = crecv.find('libc::fcntl(fd, libc::F_SETFL, 0)')
         out.append(f"def shape_nonblockSetBefore : Bool := {'true' if 0 <= iset < ircv else 'false'}")
         out.append(f"def shape_nonblockClearedAfter : Bool := {'true' if 0 <= ircv < iclr else 'false'}")
+        # end of file is confirmed by a second, non-blocking look at the queue (the kernel can report it while a packet the peer
+        # queued just before closing is there)
+        cflat = re.sub(r'\s+', '', crecv)
+        conf = ('letmutresult=recvmsg(fd,&mutself.msghdr,RECVMSG_FLAGS);ifresult==0{self.msghdr.msg_controllen=CMSG_SPACE(MAX_FDS_IN_CMSGasusize*mem::size_of::<c_int>())asMsgControlLen;'
+                'self.msghdr.msg_flags=0;result=recvmsg(fd,&mutself.msghdr,RECVMSG_FLAGS|libc::MSG_DONTWAIT);ifresult<0&&matches!(UnixError::last(),UnixError::Errno(EAGAIN)){result=0;}}'
+                'letresult=matchresult.cmp(&0){cmp::Ordering::Equal=>Err(UnixError::ChannelClosed),') in cflat
+        out.append(f"def shape_eofConfirmed : Bool := {'true' if conf else 'false'}  -- recvmsg() == 0 is followed by one more non-blocking recvmsg before `ChannelClosed`")
         m = re.search(r'cmp::Ordering::Equal\s*=>\s*return\s+Err\(UnixError::Errno\(EAGAIN\)\)', crecv)
         out.append(f"def shape_pollTimeoutIsEagain : Bool := {'true' if m else 'false'}")
         # the wait handed to poll(): `duration.as_<unit>().try_into().unwrap_or(-1)`
